@@ -84,6 +84,27 @@ def assert_repo_source() -> str:
     return f
 
 
+def quiet_logging() -> None:
+    """zorg logs through logrus/structlog to stderr; the checks read results,
+    not logs, so in-process calls are silenced (CLI children keep their stderr,
+    which is captured)."""
+    import logging
+
+    logging.disable(logging.CRITICAL)
+
+
+def preload() -> None:
+    """Import everything zorg needs once, in the parent, so forked children
+    start with warm modules (a CLI call then costs ~0.1 s instead of ~1 s)."""
+    import zorg.app.__main__  # noqa: F401
+    import zorg.service.swog  # noqa: F401
+    import zorg.service.note_utils  # noqa: F401
+    import zorg.service.messagebus  # noqa: F401
+    import zorg.storage.sql  # noqa: F401
+    import freezegun  # noqa: F401
+    import yaml  # noqa: F401
+
+
 class HarnessError(Exception):
     """A problem of the verification machinery itself (never a violation)."""
 
@@ -283,7 +304,11 @@ def write_config(path: Path, **cfg: Any) -> Path:
 
 
 def _cli_entry(argv: Sequence[str]) -> int:
+    import logging
+
     from zorg.app.__main__ import main
+
+    logging.disable(logging.NOTSET)  # a CLI child logs like a real invocation
 
     return main(list(argv))
 
@@ -300,7 +325,7 @@ def run_cli(
         cfg = zdir.parent / f"{zdir.name}.cfg.yml"
         if not cfg.exists():
             write_config(cfg)
-    argv = ["zorg", "-c", str(cfg), "--log=null", "--dir", str(zdir), *args]
+    argv = ["zorg", "-c", str(cfg), "--dir", str(zdir), *args]
     return run_child(_cli_entry, argv, day=day, timeout=timeout)
 
 
